@@ -1,6 +1,6 @@
 SPECIFICATION Spec
 CONSTANTS
-  ClearOnError = FALSE
+  ClearOnError = TRUE
   Full = FALSE
   Emit = FALSE
 INVARIANT Balanced
